@@ -10,6 +10,7 @@ import (
 	"bytes"
 	"fmt"
 	"math/big"
+	"strings"
 
 	secp256k1 "gitlab.com/yawning/secp256k1-voi"
 	"gitlab.com/yawning/secp256k1-voi/secec"
@@ -293,6 +294,15 @@ func main() {
 	if th {
 		for i := 0; i < 6; i++ {
 			sc = append(sc, ref.ModN(ref.OS2IP(ref.TaggedHash("verif/C10", []byte{byte(i)}))))
+		}
+	}
+	// GLV-steered private scalars (rounding-bit / limb-carry boundaries of the endomorphism split): ECDH runs
+	// the variable-base multiply with the PRIVATE key as the scalar
+	for _, v := range mc.GLVScalars(false) {
+		if strings.HasPrefix(v.Label, "rounding") || strings.HasPrefix(v.Label, "quotient") || (th && strings.HasPrefix(v.Label, "GLV corner")) {
+			if strings.Contains(v.Label, "m=ffffffffffffffff,") || strings.Contains(v.Label, "m=0,") || th {
+				sc = append(sc, v.V)
+			}
 		}
 	}
 	R.Bound("scalars", len(sc))
